@@ -125,9 +125,9 @@ func c11Model(p c11Prog) (int, []int) {
 }
 
 type c11Env struct {
-	c        *core.Ctx
-	h1, h2   *fpgo.HandlerDef
-	g1, g2   int64
+	c      *core.Ctx
+	h1, h2 *fpgo.HandlerDef
+	g1, g2 int64
 }
 
 func handlerGoid(h *fpgo.HandlerDef) int64 {
@@ -360,6 +360,50 @@ func runC11(c *core.Ctx) {
 	for _, p := range progs {
 		e.checkProgram(p)
 	}
+	// handlers are bound at Subscribe time: re-configuring the same MonadIO (SubscribeOn / ObserveOn) while an
+	// earlier subscription's effect is still in flight must not move that subscription's OnNext
+	h3 := fpgo.Handler.NewByCh(make(chan func(), 2))
+	g3 := handlerGoid(h3)
+	for variant := 0; variant < 4; variant++ {
+		c.Eval(1)
+		c.DistinctAdd(1)
+		variant := variant
+		pv, where := core.Catch(func() {
+			gate := make(chan struct{})
+			entered := make(chan struct{})
+			m := fpgo.MonadIONewGenerics(func() int { close(entered); <-gate; return 9 }).
+				FlatMap(func(x int) *fpgo.MonadIODef[int] { return fpgo.MonadIOJustGenerics(x + 1) }).
+				ObserveOn(e.h1).SubscribeOn(e.h2)
+			got := make(chan int64, 2)
+			m.Subscribe(fpgo.Subscription[int]{OnNext: func(v int) { got <- core.Goid() }})
+			<-entered // the effect is running on h1 now
+			switch variant {
+			case 0:
+				m.SubscribeOn(h3)
+			case 1:
+				m.SubscribeOn(nil)
+			case 2:
+				m.ObserveOn(h3).SubscribeOn(h3)
+			default:
+				m.ObserveOn(nil)
+			}
+			close(gate)
+			select {
+			case g := <-got:
+				if g != e.g2 {
+					name := map[int64]string{e.g1: "the observe handler", g3: "the handler configured AFTER Subscribe"}[g]
+					c.Violationf("subscribe:handlers-not-bound-at-subscribe-time", map[string]any{"variant": variant},
+						"Subscribe() was called with ObserveOn(h1)/SubscribeOn(h2); while the effect was in flight the MonadIO was re-configured (variant %d); OnNext ran on goroutine %d (%s) instead of h2's %d", variant, g, name, e.g2)
+				}
+			case <-time.After(20 * time.Second):
+				c.Violationf("subscribe:never-delivered", map[string]any{"variant": variant}, "OnNext was not delivered after a re-configuration in flight (variant %d)", variant)
+			}
+		})
+		if pv != nil {
+			c.Violationf("panic:reconfigure-in-flight", nil, "re-configuring a MonadIO in flight panics: %v at %s", pv, where)
+		}
+	}
+	h3.Close()
 	// interface{} entry points
 	c.Eval(1)
 	pv, where := core.Catch(func() {
@@ -392,7 +436,7 @@ func init() {
 		Meta: func(c *core.Ctx) core.Meta {
 			return core.Meta{
 				Level: "exploration",
-				Rule: "programs = Just/New leaves followed by a FlatMap chain of depth <= D (D=3 quick, 5 thorough; all chains enumerated) over 5 continuation kinds (pure Just, New with effect, nested FlatMap, continuation that logs when called, FlatMap(Just) tail) plus PRNG chains up to length 30; each program: log empty after construction and after ObserveOn/SubscribeOn, Eval x3 and Subscribe x2 under all four nil/non-nil handler combinations each add exactly the expected effect sequence and deliver exactly one value, goroutine identity of effects and OnNext, nil OnNext runs nothing, left/right identity and associativity by (value, effect log). " +
+				Rule: "programs = Just/New leaves followed by a FlatMap chain of depth <= D (D=3 quick, 5 thorough; all chains enumerated) over 5 continuation kinds (pure Just, New with effect, nested FlatMap, continuation that logs when called, FlatMap(Just) tail) plus PRNG chains up to length 30; each program: log empty after construction and after ObserveOn/SubscribeOn, Eval x3 and Subscribe x2 under all four nil/non-nil handler combinations each add exactly the expected effect sequence and deliver exactly one value, goroutine identity of effects and OnNext, nil OnNext runs nothing, handlers stay bound to a subscription when the MonadIO is re-configured while its effect is in flight, left/right identity and associativity by (value, effect log). " +
 					"distinct_nontrivial = enumerated (program, mode) cases whose expected effect log is non-empty",
 				Assumptions: []string{"observe and subscribe handlers are two distinct handlers (posting to an unbuffered handler from its own goroutine blocks by construction)",
 					"with ObserveOn only, OnNext runs on the observe handler's goroutine", "sequential driver: the property quantifies over compositions, not schedules"},
